@@ -11,6 +11,7 @@ From Gigue Require Import Types Bits Isa IsaProofs Enc EncProofs GenTables Build
   Machine MachineLemmas ImageSem GenWF GenWFProps SliceLemmas GenWF2 GenWF3 GenWF4 GenWF2Props SplitProofs
   BodyExec BodyBridge GenWF5 FrameExec CodeMem SwitchExec GenWF6 GenWF7 GenWF8 GenWF9 Walk CallFrame MethodContract SaveRestore
   TrampExec TrampsInv TrampStubs WholeImage CallFrameRimi MethodContractRimi RimiFullExec.
+From Gigue Require Import Hits.
 Import ListNotations.
 Open Scope list_scope.
 Open Scope Z_scope.
@@ -493,12 +494,12 @@ Proof.
   - congruence.
 Qed.
 
-Lemma fstep_elem_tramp e cur stub s' :
-  In e es -> int_stub_for c ms (jit_start_al c) e cur stub -> fInv s' -> pc s' = cur ->
+Lemma fstep_elem_tramp e cur stub h s' :
+  In e es -> stub_hit c ms (jit_start_al c) e cur stub h -> fInv s' -> pc s' = cur ->
   code_at (mem s') cur (map generate stub) ->
   cur mod 4 = 0 -> code_lo L <= cur -> cur + 4 * zlen stub + 4 <= jit_lo L ->
   (halt_at L < cur \/ cur + 4 * zlen stub <= halt_at L) ->
-  exists s3 h, fhit_ok e h /\ run v L (felem_cost e h) s' = (Next s3, felem_cost e h) /\ pc s3 = cur + 4 * zlen stub /\ fInv s3.
+  fhit_ok e h /\ exists s3, run v L (felem_cost e h) s' = (Next s3, felem_cost e h) /\ pc s3 = cur + 4 * zlen stub /\ fInv s3.
 Proof.
   intros He Hstub HI Hpc Hcode Hal Hlo Hhi Hh.
   pose proof Hss as Hvar.
@@ -514,7 +515,7 @@ Proof.
   assert (HTal : TA mod 4 = 0) by (unfold TA, jit_start_al, align; clear; Z.div_mod_to_equations; lia).
   pose proof (zlen_nonneg (List.concat (im_tramps img))) as Hzt.
   pose proof felements_exist as EX. rewrite Forall_forall in EX. specialize (EX e He).
-  unfold int_stub_for in Hstub. rewrite Hvar in Hstub. cbn [uses_tramp bvariant_of] in Hstub. fold TA in Hstub.
+  unfold stub_hit in Hstub. rewrite Hvar in Hstub. cbn [uses_tramp bvariant_of] in Hstub. fold TA in Hstub.
   pose proof HI as HI'. destruct HI' as (I1 & (I2 & I2d) & I3 & I4 & I5 & I6 & I7 & I8).
   destruct (ftramps_code s' I1) as (_ & _ & _ & _ & _ & _ & _ & _ & Zt). rewrite Zt in T2, T3.
   assert (Hjit_hi : jit_lo L <= code_hi L) by (clear - Qs2 T2; lia).
@@ -527,6 +528,7 @@ Proof.
     split; [clear - Hk Hlo; lia|clear - Hz Hhi; lia]. }
   destruct e as [id|p].
   - (* a method *)
+    destruct Hstub as [-> Hstub].
     destruct EX as (m & Hid). cbn [elt_addr] in Hstub. fold ms in Hstub. rewrite Hid in Hstub. unfold interp_method_call in Hstub.
     assert (Hm : In m ms) by (eapply nth_error_In; exact Hid).
     destruct (rimg_placed c img L HP m Hm) as (Ma & Mlo & Mhi & Mh & Mj).
@@ -581,11 +583,11 @@ Proof.
       split; [intros r Hr0 Hw _; apply Rg3; assumption|]. rewrite Sp2 in Mf3.
       split; [|assumption]. destruct F1 as (_ & _ & _ & F1).
       intros a Ha Hd' Hrg Hsg. apply Mf3; try assumption. clear - Hrg F1. lia. }
-    exists s4, 0. split; [reflexivity|]. cbn [felem_cost]. rewrite Hts.
+    split; [reflexivity|]. exists s4. cbn [felem_cost]. rewrite Hts.
     replace (2 + fmsteps id + 10)%nat with (4 + (5 + (fmsteps id + 3)))%nat by lia.
     split; [rewrite (run_app v L 4 _ s' s1 R1), R4; reflexivity|]. split; [rewrite P4, Hzl; clear; lia|exact I4'].
   - (* a PIC *)
-    destruct EX as (Hcases & Hex). destruct Hstub as (h & Hh0 & Hstub). cbn [elt_addr] in Hstub. unfold interp_pic_call in Hstub.
+    destruct EX as (Hcases & Hex). destruct Hstub as (Hh0 & Hstub). cbn [elt_addr] in Hstub. unfold interp_pic_call in Hstub.
     pose proof (fq_pics HQ) as QP. rewrite Forall_forall in QP. specialize (QP _ He). cbn in QP.
     destruct QP as (Pa & Plo & Phi & Ph & Pn & Prng).
     pose proof (fq_pics_side HQ) as QS. rewrite Forall_forall in QS. specialize (QS _ He). cbn in QS.
@@ -669,30 +671,31 @@ Proof.
       rewrite Rg2 in Mf3 by (try exact N2c; clear; lia). rewrite Sp2 in Mf3.
       split; [|congruence].
       intros a Ha Hd' Hrg Hsg. rewrite Mf3; [rewrite M2; reflexivity|exact Ha|exact Hd'| |exact Hsg]. destruct F1 as (_ & _ & _ & F1). clear - Hrg F1. lia. }
-    exists s4, h. split; [exact Hh0|]. cbn [felem_cost]. fold k. rewrite (nth_error_nth _ _ O Eidk). rewrite Hts.
+    split; [exact Hh0|]. exists s4. cbn [felem_cost]. fold k. rewrite (nth_error_nth _ _ O Eidk). rewrite Hts.
     replace (3 + (2 * k + 3 + fmsteps idk) + 10)%nat with (5 + (5 + ((2 * k + 3 + fmsteps idk) + 3)))%nat by lia.
     split; [rewrite (run_app v L 5 _ s' s1 R1), R4; reflexivity|]. split; [rewrite P4, Hzl; clear; lia|exact I4'].
 Qed.
 
 (* all the interpreter calls, in their shuffled order *)
-Lemma fchain_run : forall shuffled cur calls,
-  calls_chain c ms (jit_start_al c) shuffled cur calls -> (forall e, In e shuffled -> In e es) ->
+Lemma fchain_run : forall shuffled cur calls hs,
+  chain_h c ms (jit_start_al c) shuffled cur calls hs -> (forall e, In e shuffled -> In e es) ->
   (forall s'', fInv s'' -> code_at (mem s'') cur (map generate calls)) ->
   cur mod 4 = 0 -> code_lo L <= cur -> cur + 4 * zlen calls + 4 <= jit_lo L ->
   (halt_at L < cur \/ cur + 4 * zlen calls <= halt_at L) ->
   forall s', fInv s' -> pc s' = cur ->
-  exists s3 hs, Forall2 fhit_ok shuffled hs /\
+  Forall2 fhit_ok shuffled hs /\
+  exists s3,
     run v L (fchain_cost (combine shuffled hs)) s' = (Next s3, fchain_cost (combine shuffled hs)) /\
     pc s3 = cur + 4 * zlen calls /\ fInv s3.
 Proof.
-  intros shuffled cur calls H. induction H as [cur|e tl cur stub rest Hstub Hch IH]; intros Hin Hcode Hal Hlo Hhi Hh s' HI Hpc.
-  - exists s', []. split; [constructor|]. split; [reflexivity|]. split; [unfold zlen; cbn; lia|exact HI].
+  intros shuffled cur calls hs H. induction H as [cur|e tl cur stub rest h1 hs Hstub Hch IH]; intros Hin Hcode Hal Hlo Hhi Hh s' HI Hpc.
+  - split; [constructor|]. exists s'. split; [reflexivity|]. split; [unfold zlen; cbn; lia|exact HI].
   - rewrite zlen_app in Hhi, Hh. pose proof (zlen_nonneg stub) as Z1. pose proof (zlen_nonneg rest) as Z2.
     assert (Hc1 : code_at (mem s') cur (map generate stub)).
     { pose proof (Hcode s' HI) as Hc. rewrite map_app in Hc. intros j w Hj. apply Hc. apply nth_error_app_l. exact Hj. }
     assert (Hh1 : halt_at L < cur \/ cur + 4 * zlen stub <= halt_at L) by (destruct Hh; [left; lia|right; lia]).
     assert (Hhi1 : cur + 4 * zlen stub + 4 <= jit_lo L) by lia.
-    destruct (fstep_elem_tramp e cur stub s' (Hin e (or_introl eq_refl)) Hstub HI Hpc Hc1 Hal Hlo Hhi1 Hh1) as (s1 & h1 & Hh1ok & R1 & P1 & I1).
+    destruct (fstep_elem_tramp e cur stub h1 s' (Hin e (or_introl eq_refl)) Hstub HI Hpc Hc1 Hal Hlo Hhi1 Hh1) as (Hh1ok & s1 & R1 & P1 & I1).
     assert (Hc2 : forall s'', fInv s'' -> code_at (mem s'') (cur + zlen stub * 4) (map generate rest)).
     { intros s'' HI''. pose proof (Hcode s'' HI'') as Hc. rewrite map_app in Hc.
       replace (cur + zlen stub * 4) with (cur + 4 * Z.of_nat (List.length (map generate stub))) by (rewrite map_length; unfold zlen; lia).
@@ -704,8 +707,8 @@ Proof.
     assert (Hhi2 : cur + zlen stub * 4 + 4 * zlen rest + 4 <= jit_lo L) by lia.
     assert (Hh2 : halt_at L < cur + zlen stub * 4 \/ cur + zlen stub * 4 + 4 * zlen rest <= halt_at L) by (destruct Hh; [left; lia|right; lia]).
     assert (Hp2 : pc s1 = cur + zlen stub * 4) by (rewrite P1; lia).
-    destruct (IH (fun e' He' => Hin e' (or_intror He')) Hc2 Hal2 Hlo2 Hhi2 Hh2 s1 I1 Hp2) as (s3 & hs & Hhs & R3 & P3 & I3).
-    exists s3, (h1 :: hs). split; [constructor; assumption|]. cbn [combine fchain_cost fold_right fst snd].
+    destruct (IH (fun e' He' => Hin e' (or_intror He')) Hc2 Hal2 Hlo2 Hhi2 Hh2 s1 I1 Hp2) as (Hhs & s3 & R3 & P3 & I3).
+    split; [constructor; assumption|]. exists s3. cbn [combine fchain_cost fold_right fst snd].
     split; [rewrite (run_app v L (felem_cost e h1) _ s' s1 R1); fold (fchain_cost (combine tl hs)); rewrite R3; reflexivity|].
     split; [rewrite P3, zlen_app; lia|exact I3].
 Qed.
@@ -726,15 +729,17 @@ Proof.
 Qed.
 
 (* THE THEOREM: the whole image of the two variants without isolation (with or without trampolines) returns *)
-Theorem rimifull_image_returns :
+Lemma fimage_run_h pro epi shuffled calls hs :
+  base_prologue 10 0 true = OK pro -> base_epilogue 10 0 true = OK epi -> Permutation es shuffled ->
+  chain_h c ms (jit_start_al c) shuffled (int_start_al c + zlen pro * 4) calls hs -> ints = pro ++ calls ++ epi ->
   pc s0 = I0 -> fimage_loaded s0 -> rget s0 dr = data_lo L -> dom s0 = 0 ->
-  exists s' eh, map fst eh = es /\ Forall (fun x => fhit_ok (fst x) (snd x)) eh /\
-    run v L (fimage_steps eh) s0 = (Next s', fimage_steps eh) /\
+  Forall2 fhit_ok shuffled hs /\
+  exists s', run v L (12 + (fchain_cost (combine shuffled hs) + 13)) s0 = (Next s', (12 + (fchain_cost (combine shuffled hs) + 13))%nat) /\
     pc s' = (u64 (rget s0 1 + 0) / 2) * 2 /\
     (forall r, 0 <= r -> wr c r = false -> ~ fclob r -> rget s' r = rget s0 r) /\
     rmem_frame c L s0 s' (S - fNtot) S (P0 - FSW) P0 /\ dom s' = 0 /\ cfi s' = cfi s0.
 Proof.
-  intros Hpc Hload Hdr0 Hdom0.
+  intros Hpro Hepi Hperm Hchain Hints. intros Hpc Hload Hdr0 Hdom0.
   destruct (fq_side HQ) as (Qs1 & Qs2).
   pose proof (rp_regions c img L HP) as RO. pose proof (rp_code64 c img L HP) as H64. pose proof (ro_code L RO) as Hc0.
   destruct (rp_stack c img L HP) as [Hsc Hsp0].
@@ -744,7 +749,6 @@ Proof.
   destruct (fq_int HQ) as (Qlo & Qhi & Qh).
   assert (Hal0 : I0 mod 4 = 0) by (unfold I0, int_start_al, align; Z.div_mod_to_equations; lia).
   (* structure of the interpreter loop *)
-  destruct (interpreter_calls_each_element_once c script img Hsucc) as (pro & epi & shuffled & calls & Hpro & Hepi & Hperm & Hchain & Hints).
   destruct rimi_int_frames_eq as (p' & e' & Hp' & He' & Dp & De).
   rewrite Hpro in Hp'. rewrite Hepi in He'. inversion Hp'; inversion He'; subst p' e'. clear Hp' He'.
   assert (Lpro : List.length pro = 12%nat) by (apply decode_all_Forall2 in Dp; rewrite (Forall2_len' _ _ _ Dp); reflexivity).
@@ -802,7 +806,7 @@ Proof.
   (* ---------- the calls ---------- *)
   set (cur := I0 + zlen pro * 4) in *.
   assert (Ecur : cur = I0 + 48) by (unfold cur, zlen; rewrite Lpro; lia).
-  destruct (fchain_run shuffled cur calls Hchain) with (s' := s2) as (s3 & hs & Hhs & R3 & P3 & I3); try assumption.
+  destruct (fchain_run shuffled cur calls hs Hchain) with (s' := s2) as (Hhs & s3 & R3 & P3 & I3); try assumption.
   { intros e Hin. apply (Permutation_in e (Permutation_sym Hperm) Hin). }
   { intros s'' (( _ & Hl2 & _) & _). rewrite Ews in Hl2.
     replace cur with (I0 + 4 * Z.of_nat (List.length (map generate pro))) by (rewrite map_length, Lpro; lia).
@@ -843,14 +847,8 @@ Proof.
     - rewrite map_length, Lepi. unfold A3. lia.
     - rewrite map_length, Lepi. unfold A3. destruct Qh; [left; lia|right; lia].
     - apply int_side; [rewrite map_length, Lepi; unfold A3; clear - Qs1 Hzi Ecur; lia|exact J7]. }
-  assert (Hlsh : List.length shuffled = List.length hs) by (apply (Forall2_len' _ _ _ Hhs)).
-  assert (Hperm' : Permutation es (map fst (combine shuffled hs))) by (rewrite (map_fst_combine shuffled hs Hlsh); exact Hperm).
-  destruct (Permutation_map_inv fst _ Hperm') as (eh & Eeh & Peh).
-  exists s5, eh. split; [symmetry; exact Eeh|]. split.
-  { apply Forall_forall. intros x Hx. apply (Permutation_in x (Permutation_sym Peh)) in Hx.
-    destruct x as [e h]. cbn [fst snd]. exact (Forall2_combine_In _ _ _ _ _ Hhs Hx). }
-  split.
-  { unfold fimage_steps. rewrite <- (fchain_cost_perm _ _ Peh). set (n := fchain_cost (combine shuffled hs)) in *.
+  split; [exact Hhs|]. exists s5. split.
+  { set (n := fchain_cost (combine shuffled hs)) in *.
     rewrite (run_app v L 12 (n + 13) s0 s2 Run1). rewrite (run_app v L n 13 s2 s3 R3). rewrite Run3. reflexivity. }
   assert (Hslotval : forall r o, In (r, o) int_slots -> rget s4 r = rget s0 r).
   { intros r o Hin. rewrite (Rl4 Hnd r o Hin). rewrite (J5 r o Hin). apply u64_small. apply (Hsaved r o Hin). }
@@ -867,5 +865,27 @@ Proof.
         intros ->. apply Hnin. cbn. auto 20. }
   split; [intros a Ha Hd' Hrg Hsg; unfold s5; cbn [set_pc mem]; rewrite mem_rset, M4; apply J6; assumption|].
   split; [unfold s5; cbn [set_pc dom]; rewrite dom_rset; congruence|unfold s5; cbn [set_pc cfi]; rewrite cfi_rset; congruence].
+Qed.
+
+Theorem rimifull_image_returns :
+  pc s0 = I0 -> fimage_loaded s0 -> rget s0 dr = data_lo L -> dom s0 = 0 ->
+  exists s' eh, map fst eh = es /\ Forall (fun x => fhit_ok (fst x) (snd x)) eh /\
+    run v L (fimage_steps eh) s0 = (Next s', fimage_steps eh) /\
+    pc s' = (u64 (rget s0 1 + 0) / 2) * 2 /\
+    (forall r, 0 <= r -> wr c r = false -> ~ fclob r -> rget s' r = rget s0 r) /\
+    rmem_frame c L s0 s' (S - fNtot) S (P0 - FSW) P0 /\ dom s' = 0 /\ cfi s' = cfi s0.
+Proof.
+  intros Hpc Hload Hdr0 Hdom0.
+  destruct (interpreter_calls_each_element_once c script img Hsucc) as (pro & epi & shuffled & calls & Hpro & Hepi & Hperm & Hchain & Hints).
+  destruct (chain_has_hits _ _ _ _ _ _ Hchain) as (hs & Hch).
+  destruct (fimage_run_h pro epi shuffled calls hs Hpro Hepi Hperm Hch Hints Hpc Hload Hdr0 Hdom0) as (Hhs & s' & R & Rest).
+  assert (Hlsh : List.length shuffled = List.length hs) by (apply (Forall2_len' _ _ _ Hhs)).
+  assert (Hperm' : Permutation es (map fst (combine shuffled hs))) by (rewrite (map_fst_combine shuffled hs Hlsh); exact Hperm).
+  destruct (Permutation_map_inv fst _ Hperm') as (eh & Eeh & Peh).
+  exists s', eh. split; [symmetry; exact Eeh|]. split.
+  { apply Forall_forall. intros x Hx. apply (Permutation_in x (Permutation_sym Peh)) in Hx.
+    destruct x as [e h]. cbn [fst snd]. exact (Forall2_combine_In _ _ _ _ _ Hhs Hx). }
+  split; [|exact Rest].
+  unfold fimage_steps. rewrite <- (fchain_cost_perm _ _ Peh). exact R.
 Qed.
 End WIF.
